@@ -143,7 +143,8 @@ func (s *Sim) attemptAll(b *WB, o *Op, locks int) *Finding {
 		if p == nil {
 			return finding(CatLock, "%s: structural call succeeded on a locked world: %s", b.Name, a.Describe())
 		}
-		if msg := fmt.Sprint(p); !strings.Contains(msg, "locked world") {
+		// (any wording that mentions the lock: the property fixes the panic, not its text)
+		if msg := fmt.Sprint(p); !strings.Contains(strings.ToLower(msg), "lock") {
 			return finding(CatLock, "%s: structural call on a locked world panicked with %q instead of the locked-world message: %s", b.Name, msg, a.Describe())
 		}
 		if after := Shape(b.W); after != before {
